@@ -568,9 +568,19 @@ def with_cfee(case, a):
     return rows + extra
 
 
+def schedule_covers(case):
+    """an [accounting_methods] schedule must name a method for the year of every taxable event (a schedule that starts later is a
+    configuration that cannot be computed, not a crash)"""
+    if not case["sched"]:
+        return True
+    first = min(int(y) for y in case["sched"])
+    names = [case["only"]] if case["only"] else list(case["assets"])
+    return all(P.local_year(r[2], r[3]) >= first for a in names for r in with_cfee(case, a) if P.taxable(r))
+
+
 def case_valid(case):
     names = [case["only"]] if case["only"] else list(case["assets"])
-    return all(asset_valid(with_cfee(case, a), case["neg"], case["entry"] == "jp") for a in names)
+    return schedule_covers(case) and all(asset_valid(with_cfee(case, a), case["neg"], case["entry"] == "jp") for a in names)
 
 
 def expected_files(case):
